@@ -17,13 +17,14 @@ import EdpVerif.Drv.C15
 import EdpVerif.Drv.C16
 import EdpVerif.Drv.C17
 import EdpVerif.Drv.C18
+import EdpVerif.Drv.C18b
 import EdpVerif.Drv.C19
 import EdpVerif.Drv.C20
 namespace Edp.Drv
 
 def handlers : List (List String → Option String) :=
   [handleEtf, handleC02, handleC03, handleC04, handleC04Net, handleC05, handleC06, handleC07, handleC08, handleC09, handleC10,
-   handleC11, handleC12, handleC13, handleC14, handleC15, handleC16, handleC17, handleC18, handleC19, handleC20]
+   handleC11, handleC12, handleC13, handleC14, handleC15, handleC16, handleC17, handleC18, handleC18b, handleC19, handleC20]
 
 def handle (args : List String) : String :=
   match handlers.findSome? (· args) with
